@@ -164,5 +164,11 @@ func checkRoomID(res *eventV3) error {
 	if !isCreateEvent && !strings.HasPrefix(res.eventFields.RoomID, "!") {
 		return fmt.Errorf("gomatrixserverlib: room_id must start with !")
 	}
+	if !isCreateEvent {
+		// RoomID() and AuthEventIDs() rely on the room ID being well formed.
+		if _, err := spec.NewRoomID(res.eventFields.RoomID); err != nil {
+			return fmt.Errorf("gomatrixserverlib: invalid room ID %q: %w", res.eventFields.RoomID, err)
+		}
+	}
 	return nil
 }
